@@ -278,6 +278,15 @@ Definition count_nontrivial (cases : list slice_case) : nat :=
 Definition count_queries (cases : list slice_case) : nat :=
   fold_right (fun c n => length (snd c) + n) 0 cases.
 
+(* a history: several extractions from the SAME frame of the same greenlet, the enclosing stack
+   changed in between; every round is compared with the model on the world as it is then *)
+Definition hist_case := list slice_case.
+Definition hist_ok (h : hist_case) : bool := forallb case_ok h.
+Definition hist_mismatches (cases : list hist_case) : list nat := false_indices 0 (map hist_ok cases).
+Definition hist_nontrivial (cases : list hist_case) : nat :=
+  count_true (map (fun h : hist_case => (2 <=? length h)
+                                        && existsb (fun c : slice_case => existsb (query_nontrivial (fst c)) (snd c)) h) cases).
+
 (* py_slice / del_slice against real Python slicing: a list, a start, and for every stop the
    results of l[start:stop:step] for several steps and of `del l[start:stop]` *)
 Definition pyslice_row := (option Z * list (Z * list nat) * list nat)%type.
